@@ -627,7 +627,7 @@ func c15b(c *Ctx) {
 			}
 			key := "forEachInnerLoop:skip:" + strings.ReplaceAll(c.src(d), " ", "")
 			if x, op, k, ok := cmpNorm(info, d); ok {
-				if _, isLen := isBuiltinCall(info, x, "len"); isLen && samePredOnRange(intPred(op, k), func(v int64) bool { return v == 0 }, 0, 4) {
+				if lc, isLen := isBuiltinCall(info, x, "len"); isLen && len(lc.Args) == 1 && c15IsPlainIdent(lc.Args[0]) && samePredOnRange(intPred(op, k), func(v int64) bool { return v == 0 }, 0, 4) {
 					key = "forEachInnerLoop:skip:empty-element" // semantic key: independent of the local's name and of ==0 / <1 spelling
 				}
 			}
@@ -1131,4 +1131,12 @@ func c15d(c *Ctx, regs []c14Reg) {
 		}
 	}
 	c.MinCount("R15d", "array writer methods of the five types", n, 11)
+}
+
+// c15IsPlainIdent: the skip test of the known finding is on the element's own
+// byte slice (a plain local), not on a transformed copy (TrimSpace, …), which
+// would skip more elements than the listed finding does.
+func c15IsPlainIdent(e ast.Expr) bool {
+	_, ok := unparen(e).(*ast.Ident)
+	return ok
 }
